@@ -9,6 +9,8 @@ PREDS = {
     'a_num_gt_1': lambda a: isinstance(a, (int, float)) and a > 1,
     'always': lambda: True,
     'never': lambda a: False,
+    'a_truthy': lambda a: a,
+    'b_strlen': lambda b: len(b) if isinstance(b, str) else 0,
     'a_is_b': lambda a, b: a is b and (a is None or (isinstance(a, float) and a != a)),
 }
 REGEX = {'has_a': re.compile('a'), 'starts_b': re.compile('^b'), 'ends_b': re.compile('b$'),
